@@ -414,6 +414,7 @@ func (r *Reader) traverseNodeFiltered(n *html.Node, ctx *parseContext, elements 
 
 			text := strings.TrimSpace(getTextContent(n))
 			if text != "" && !isBlockContainer(n) {
+				ctx.flushList(elements)
 				*elements = append(*elements, parsedElement{
 					Type: ElementParagraph,
 					Text: text,
@@ -507,6 +508,7 @@ func (r *Reader) traverseNodeFiltered(n *html.Node, ctx *parseContext, elements 
 		case "pre", "code":
 			text := getTextContent(n)
 			if text != "" {
+				ctx.flushList(elements)
 				*elements = append(*elements, parsedElement{
 					Type:   ElementCode,
 					Text:   text,
@@ -518,6 +520,7 @@ func (r *Reader) traverseNodeFiltered(n *html.Node, ctx *parseContext, elements 
 		case "blockquote":
 			text := strings.TrimSpace(getTextContent(n))
 			if text != "" {
+				ctx.flushList(elements)
 				*elements = append(*elements, parsedElement{
 					Type: ElementBlockquote,
 					Text: text,
